@@ -2,7 +2,8 @@ import CJ.Model.Ingest
 import CJ.Drv.Util
 /-! Driver for the ingest model (C07).
 
-`c07|<cfg>|<wire>|<wire>|…` — the messages are ingested in order into one empty registry.
+`c07|<cfg>|<wire>|<wire>|…` — the messages are ingested in order into one empty registry; the wire `D`
+repeats the previous message.
 * cfg: `<enableV4>,<enableV6>,<shareOverAPI>,<transports sep ' '>,<blocklist: hex/ones sep ' '>`
 * wire: `G` (undecodable) or
   `M,<payload>,<v4sup>,<v6sup>,<registrant>,<source>,<transport>,<libver>,<prescanned>,<rr>,<oracles>` with
@@ -97,7 +98,13 @@ def handle (args : List String) : Option String :=
   match args with
   | cfg :: wires => do
     let c ← parseCfg cfg
-    let ws ← wires.mapM parseWire
+    -- `D` repeats the previous message
+    let ws ← wires.foldlM (fun (acc : List Wire) w =>
+      if w == "D" then
+        match acc.getLast? with
+        | some prev => some (acc ++ [prev])
+        | none => none
+      else (parseWire w).map (fun x => acc ++ [x])) []
     let (_, outs) := ws.foldl (fun (acc : RSt × List String) w =>
       let (s', o) := answer c acc.1 w
       (s', o :: acc.2)) (CJ.Registry.init, [])
